@@ -5,8 +5,10 @@ import Magog.Model.Defs
 namespace Magog.Model
 open Magog
 
-def attackTable : List Nat := Gen.attackTable
-def directionTable : List Nat := Gen.directionTable
+/-- the tables as arrays (constant-time lookup when the model is executed); proofs go through
+    `List.getElem?_toArray` to the generated lists -/
+def attackTable : Array Nat := Gen.attackTable.toArray
+def directionTable : Array Nat := Gen.directionTable.toArray
 
 /-- `moveIndex(from, to)`: int16 arithmetic, no panic by itself -/
 @[inline] def moveIndex (frm to : Nat) : Int := (Gen.lastValidSquare : Int) + (to : Int) - (frm : Int)
